@@ -271,6 +271,36 @@ func twoSubpaths(offs []oracle.Pt) fw.Family {
 	}
 }
 
+// chains: every ordered k-tuple of the 12-curve menu as consecutive segments of ONE subpath (each
+// segment starts where the previous one ended), open and closed, optionally preceded by a line
+// (so that the first curve does not start at the subpath start).
+func chains(k int) fw.Family {
+	rad := []int{2, 2}
+	for j := 0; j < k; j++ {
+		rad = append(rad, 12)
+	}
+	get := func(i int64) []oracle.Subpath {
+		d := oracle.Digits(i, rad...)
+		cur := oracle.Pt{}
+		var segs []oracle.Seg
+		if d[1] == 1 {
+			cur = oracle.Pt{X: 1, Y: -2}
+			segs = append(segs, oracle.MkLine(oracle.Pt{}, cur))
+		}
+		for j := 0; j < k; j++ {
+			s := curvefam.Menu12(cur)[d[2+j]]
+			segs = append(segs, s)
+			cur = s.P1
+		}
+		return []oracle.Subpath{oracle.Chain(d[0] == 1, segs...)}
+	}
+	return fw.Family{
+		Name: fmt.Sprintf("chains of %d menu12 segments in one subpath x open/closed x leading line", k), N: oracle.Prod(rad...),
+		Check: func(i int64, r *fw.R) { check(r, get(i)) },
+		Desc:  func(i int64) string { return curvefam.Desc(get(i)) },
+	}
+}
+
 func families(tier string) []fw.Family {
 	arcQ := func(i int64) oracle.Seg { return curvefam.Arc(i, rotsQuick) }
 	fs := []fw.Family{
@@ -278,6 +308,8 @@ func families(tier string) []fw.Family {
 		segFamily("cube[-2..2]^6", curvefam.NCube, curvefam.Cube, 1, oracle.Pt{}),
 		segFamily("arc(r in {.5,1,2,3}^2, rot {0,15,45,90,135}, flags, end [-2..2]^2)", curvefam.NArc, arcQ, 1, oracle.Pt{}),
 		twoSubpaths([]oracle.Pt{{X: 5, Y: -4}, {X: -1, Y: 1}}),
+		chains(2),
+		chains(3),
 	}
 	if tier == "thorough" {
 		off := oracle.Pt{X: 1000.5, Y: -37.25}
@@ -302,7 +334,7 @@ func Prop() *fw.Property {
 	return &fw.Property{
 		ID:    "C08",
 		Level: "exploration",
-		Rule: "every single quadratic (control, end in [-3..3]^4), cubic ([-2..2]^6) and canonical arc (radii {.5,1,2,3}^2 x 5 rotations x 4 flag pairs x end in [-2..2]^2) from the origin, and every ordered pair of a 12-curve menu as two open/closed subpaths; " +
+		Rule: "every single quadratic (control, end in [-3..3]^4), cubic ([-2..2]^6) and canonical arc (radii {.5,1,2,3}^2 x 5 rotations x 4 flag pairs x end in [-2..2]^2) from the origin, every ordered pair of a 12-curve menu as two open/closed subpaths, and every ordered pair and triple of that menu as consecutive segments of one subpath (open/closed, with and without a leading line); " +
 			"Bounds compared with exact stationary points + 256 dense samples per curve (containment 1e-9*scale, tightness 1e-6*scale), FastBounds must contain the true box (1e-9*scale) and Bounds (1e-12*scale); the same for 4 images under integer translation / axis reflections, and equivariance 1e-9*scale; " +
 			"non-trivial = at least one side of the box is decided by an interior stationary point of a curve",
 		Assumptions: []string{
